@@ -16,6 +16,7 @@ import (
 	"rare/pkg/extractor/batchers"
 	"rare/pkg/verifhook"
 
+	"path/filepath"
 	"verifharness/internal/run"
 )
 
@@ -263,6 +264,8 @@ type bdrv struct {
 	done    chan struct{}
 	ending  atomic.Bool
 	started atomic.Bool
+	ghosts  int // named paths at which nothing exists (each is one read error by design)
+	c       *run.Ctx
 }
 
 func (d *bdrv) hook(loc string) {
@@ -288,7 +291,14 @@ func (d *bdrv) start(m *lmon) error {
 		loc := loc
 		verifhook.Set(loc, func() { d.hook(loc) })
 	}
-	names := make(chan string, len(m.files))
+	names := make(chan string, len(m.files)+1)
+	if !d.cs.Reopen && (d.cs.Batch+len(m.files))%2 == 1 && len(m.files) > 0 {
+		// one more path, at which nothing exists (plain follow cannot open it: one read error, nothing to wait for): the
+		// files that do exist are followed as ever, and the stream still ends once they are removed
+		names <- filepath.Join(filepath.Dir(m.files[0].path), "ghost-never-there.log")
+		d.ghosts = 1
+		d.c.Count("batch_histories_with_an_unopenable_sibling", 1)
+	}
 	for _, f := range m.files {
 		names <- f.path
 	}
@@ -327,8 +337,8 @@ func (d *bdrv) start(m *lmon) error {
 
 func (d *bdrv) waitStarted(m *lmon) int {
 	n := len(m.files)
-	r := m.waitL(lineWaitLimit, 0, nil, func() bool { return d.b.ActiveFileCount() == n || d.b.ReadErrors() > 0 })
-	if r == wOK && d.b.ReadErrors() > 0 {
+	r := m.waitL(lineWaitLimit, 0, nil, func() bool { return d.b.ActiveFileCount() == n || d.b.ReadErrors() > d.ghosts })
+	if r == wOK && d.b.ReadErrors() > d.ghosts {
 		return wTimeout // the files exist: opening them failed for an environmental reason (inotify limits ...)
 	}
 	if r == wOK {
@@ -419,9 +429,9 @@ func (d *bdrv) diag() string {
 }
 
 func runBatch(c *run.Ctx, cs *Case, dir string) outcome {
-	d := &bdrv{cs: cs}
+	d := &bdrv{cs: cs, c: c}
 	out := runLines(c, cs, dir, d)
-	if out.class == "" && out.inconclusive == "" && d.b != nil && d.b.ReadErrors() > 0 {
+	if out.class == "" && out.inconclusive == "" && d.b != nil && d.b.ReadErrors() > d.ghosts {
 		out.inconclusive = fmt.Sprintf("batch level: %d read errors reported by the batcher (environment)", d.b.ReadErrors())
 	}
 	return out
@@ -445,7 +455,8 @@ func (d *cdrv) hits(string) int64 { return -1 }
 func (d *cdrv) start(m *lmon) error {
 	args := []string{"--nocolor", "filter", "-l", "--workers", "1", "--batch", strconv.Itoa(d.cs.Batch)}
 	if d.cs.Reopen {
-		args = append(args, "-F")
+		// -F implies following; giving -f as well changes nothing
+		args = append(args, [][]string{{"-F"}, {"-f", "-F"}, {"-F", "-f"}}[(d.cs.Batch+len(m.files))%3]...)
 	} else {
 		args = append(args, "-f")
 	}
